@@ -292,6 +292,43 @@ func conc(cfg fw.Config, rec *fw.Rec) {
 		rec.Bucket("concurrent_rounds")
 		rec.Nontrivial(fw.Canon([]interface{}{"conc", mc.Pattern, mc.Message}))
 	}
+	// names never seen before, met for the first time by many goroutines at once: whatever the
+	// matcher remembers about a variable name must be safe to learn concurrently (the rounds
+	// above compute the sequential results first, which would warm any such memory)
+	for round := 0; round < cfg.Pick(40, 400); round++ {
+		tag := fmt.Sprintf("%d_%d", cfg.Seed, round)
+		pat := map[string]interface{}{"a": "?<cold" + tag, "b": map[string]interface{}{"c": "?>=warm" + tag, "d": []interface{}{"?arr" + tag}}, "e": "??opt" + tag, "f": map[string]interface{}{"?prop" + tag: "?pv" + tag}, "g": "?!=ne" + tag}
+		in := match.Bindings{"?<cold" + tag: 10.0, "?>=warm" + tag: 1.0, "?!=ne" + tag: 5.0}
+		msg := map[string]interface{}{"a": 3.0, "b": map[string]interface{}{"c": 2.0, "d": []interface{}{"x", "y"}}, "f": map[string]interface{}{"k": "v"}, "g": 6.0}
+		var wg sync.WaitGroup
+		start := make(chan struct{})
+		got := make([]string, 16)
+		for g := 0; g < 16; g++ {
+			wg.Add(1)
+			go func(g int) {
+				defer wg.Done()
+				<-start
+				o, bss, _ := eval(rec, "cold names "+tag, pat, msg, in)
+				got[g] = fmt.Sprint(o, len(bss))
+			}(g)
+		}
+		close(start)
+		wg.Wait()
+		o, bss, _ := eval(rec, "cold names "+tag, pat, msg, in)
+		want := fmt.Sprint(o, len(bss))
+		rec.Eval(17)
+		ok := len(bss) == 2
+		for g := range got {
+			if got[g] != want {
+				ok = false
+			}
+		}
+		if !ok {
+			rec.Violation("C03:concurrent-differs:cold-names", fmt.Sprintf("variable names met for the first time by 16 goroutines at once: results %v, alone afterwards %s (2 sets expected)", got, want), map[string]interface{}{"pattern": pat, "message": msg, "bindings": in})
+			break
+		}
+		rec.Bucket("concurrent_first_use_of_new_variable_names")
+	}
 	rec.SetExtra("concurrent_goroutines_per_round", G)
 	// deeply nested (but legal) patterns matched from many goroutines at once: the result
 	// must be what the same match gives alone, whatever else is being matched meanwhile
@@ -344,7 +381,7 @@ func Run(cfg fw.Config, rec *fw.Rec) {
 	rec.Rule = "each case is evaluated R times (48 quick / 192 thorough) with pattern, message and bindings rebuilt each time with a different map insertion order (all permutations of the top-level pattern map when it has 2-3 keys, random for nested maps); the canonical multiset of results and error/non-error outcome must coincide, inputs must be deep-equal to their snapshots after every call, results must be distinct map objects; concurrent part: 32 goroutines x one shared pattern object under -race, plus patterns nested 500 and 3000 levels deep matched by 32 goroutines at once; non-trivial = some evaluation returned a result; distinct by canonical (pattern,message,bindings)"
 	rec.Assume = []string{"Go iterates a small map in a rotation of its insertion order: varying insertion order plus repetition covers the iteration orders of maps with <= 8 keys", "the race detector reports only races that occur in the produced interleavings"}
 	if cfg.Part == "conc" {
-		rec.Required = []string{"concurrent_rounds", "concurrent_rounds_sharing_a_message", "concurrent_deep_patterns_agree"}
+		rec.Required = []string{"concurrent_rounds", "concurrent_rounds_sharing_a_message", "concurrent_deep_patterns_agree", "concurrent_first_use_of_new_variable_names"}
 		conc(cfg, rec)
 		return
 	}
